@@ -332,8 +332,8 @@ def run_copy(case, stt):
                     check(type(w) is type(z) and same_attrs(attrs(w), attrs(z)), "{}.like(base object, {}) does not carry the given and the inherited "
                           "attributes: {} vs {}", spec["cls"], sorted(extra), attrs(w), attrs(z))
                     for k in sorted(extra):
-                        if k == "freq_align" or k == "pol_type":
-                            continue  # (these have defaults in the constructors)
+                        if k == "freq_align" or k == "pol_type" or spec.get("sub") == "ctor":
+                            continue  # (these have defaults in the constructors; a user constructor with defaults of its own has them for all)
                         must_raise("%s.like(base object) without the required %s" % (spec["cls"], k),
                                    lambda: type(z).like(y, **{a2: v for a2, v in extra.items() if a2 != k}), (ValueError, TypeError))
             stt.nt()
